@@ -244,6 +244,100 @@ static void c05_tests()
   }
 }
 
+// ---------------------------------------------------------------- C05 / C03: the POINTER is read from sandbox memory
+template<typename T>
+static void base_case(long gs)
+{
+  Cell<T*> cell;
+  std::vector<std::vector<W>> scr = { { 64, 128 }, { 64, SIZE - gs }, { SIZE - gs, 64 }, { 64, SIZE - 1 }, { 64, 0 }, { 0, 64 },
+                                      { 2048, 8, SIZE - gs }, { 256 } };
+  // p + n, p - n, p[n], &p[n] with a plain n
+  for (auto& script : scr) {
+    for (int op : { 0, 1, 4, 5 }) {
+      for (long n : { 0L, 1L, 3L, (SIZE - 64) / gs - 1, (SIZE - 64) / gs, 64 / gs, 64 / gs + 1 }) {
+        const volatile void* res = nullptr;
+        cell.arm(script);
+        const char* r = guarded([&] {
+          switch (op) {
+            case 0: res = (cell.ref() + n).UNSAFE_unverified(); break;
+            case 1: res = (cell.ref() - n).UNSAFE_unverified(); break;
+            case 4: res = std::addressof(cell.ref()[n]); break;
+            default:
+              if constexpr (!std::is_class_v<T>) { // (& of a tainted_volatile struct does not compile)
+                res = (&cell.ref()[n]).UNSAFE_unverified();
+              } else {
+                res = std::addressof(std::as_const(cell.ref())[n]);
+              }
+              break;
+          }
+        });
+        lw::disarm();
+        tr::Ev e("fetch");
+        e.str("kind", "ptrbase").str("op", OPN[op]).num("s", gs).num("size", SIZE).wide("n", n);
+        put_script(e, script);
+        bool ok = std::strcmp(r, "ok") == 0;
+        e.str("out", r).boolean("rnull", ok && res == nullptr).wide("r", ok ? rel(res) : 0).num("reads", lw::g.reads);
+        out.put(e);
+      }
+    }
+    // *p and p-> : the object designated lies wholly inside the sandbox, at the address read
+    for (int op = 0; op < 2; op++) {
+      const volatile void* res = nullptr;
+      cell.arm(script);
+      const char* r = guarded([&] {
+        if (op == 0) {
+          res = std::addressof(*cell.ref());
+        } else {
+          res = cell.ref().operator->();
+        }
+      });
+      lw::disarm();
+      tr::Ev e("fetch");
+      e.str("kind", "deref").str("op", op == 0 ? "*" : "->").num("gs", gs).num("size", SIZE);
+      put_script(e, script);
+      bool ok = std::strcmp(r, "ok") == 0;
+      e.str("out", r).wide("r", ok ? rel(res) : 0).num("reads", lw::g.reads);
+      out.put(e);
+    }
+  }
+}
+static void c03_tests()
+{
+  base_case<int>(sizeof(GuestRep<int>));
+  base_case<char>(1);
+  base_case<long long>(sizeof(GuestRep<long long>));
+  base_case<PS>(sizeof(tainted_volatile<PS, Sbx>));
+}
+
+// ---------------------------------------------------------------- C10: the extent is read from sandbox memory
+static void c10_tests()
+{
+  static char app[2 * 4096];
+  const long START = 1024;
+  auto buf = sb->UNSAFE_accept_pointer(reinterpret_cast<char*>(BASE + START));
+  char* raw = reinterpret_cast<char*>(BASE + START);
+  for (long i = 0; i < SIZE - START; i++) {
+    raw[i] = (char)(i * 7 + 1);
+    app[i] = raw[i];
+  }
+  const long DIFF = 40;
+  app[DIFF] = (char)(raw[DIFF] + 1); // the application buffer is greater from byte 40 on
+  Cell<unsigned> ncell;
+  Cell<char*> pcell;
+  for (auto script : std::vector<std::vector<W>>{ { 8, 64 }, { 8, 100000 }, { 100000, 8 }, { 8, 8, SIZE - START + 1 }, { 64, SIZE - START },
+                                                  { 8, 4000 }, { 41, 40 }, { 16 } }) {
+    int res = -99;
+    ncell.arm(script);
+    const char* r = guarded([&] { res = memcmp(*sb, buf, app, ncell.ref()).unverified_safe_because("recorded"); });
+    lw::disarm();
+    tr::Ev e("fetch");
+    e.str("kind", "bulk").str("what", "memcmp(num in sandbox memory)").num("start", START).num("size", SIZE).num("diffat", DIFF);
+    put_script(e, script);
+    e.str("out", r).num("sign", res < 0 ? -1 : res > 0 ? 1 : 0).num("reads", lw::g.reads);
+    out.put(e);
+  }
+}
+
 // ---------------------------------------------------------------- C09: verified copies of one cell
 template<typename N>
 static void verify_case(const std::vector<std::vector<W>>& scr)
@@ -350,6 +444,42 @@ static void c09_tests()
         e.str("out", r).wide("seen", seen).wide("used", used).num("calls", calls).num("reads", lw::g.reads);
         out.put(e);
       }
+    }
+  }
+  // copy_and_verify on a pointer CELL: the verifier gets a copy of the object at the address the
+  // cell held (or null); redirecting the cell never yields an object from anywhere else
+  {
+    Cell<int*> cell;
+    using GI = GuestRep<int>;
+    auto put = [&](long off, long v) { *reinterpret_cast<GI*>(BASE + off) = (GI)v; };
+    put(2048, 111);
+    put(3072, 222);
+    put(SIZE - (long)sizeof(GI), 333);
+    for (auto script : std::vector<std::vector<W>>{ { 2048, 3072 }, { 3072, 2048 }, { 2048, 0 }, { 0, 2048 }, { 2048, SIZE - (long)sizeof(GI) },
+                                                    { 2048, SIZE - 2 }, { SIZE - 1, 2048 }, { 3072 } }) {
+      W seen = -7777, used = -7777;
+      int calls = 0;
+      cell.arm(script);
+      const char* r = guarded([&] {
+        long u = cell.ref().copy_and_verify([&](std::unique_ptr<int> v) {
+          seen = v == nullptr ? -1 : (W)*v;
+          calls++;
+          return v == nullptr ? -1L : (long)*v;
+        });
+        used = u;
+      });
+      lw::disarm();
+      tr::Ev e("fetch");
+      e.str("kind", "verifyptr").str("what", "pointer-cell.copy_and_verify").num("gs", (long)sizeof(GI)).num("size", SIZE);
+      put_script(e, script);
+      std::string vals = "[";
+      for (size_t i = 0; i < script.size(); i++) {
+        long o = (long)script[i];
+        vals += (i ? "," : "") + std::to_string(o == 2048 ? 111 : o == 3072 ? 222 : o == SIZE - (long)sizeof(GI) ? 333 : -5);
+      }
+      e.raw("vals", vals + "]");
+      e.str("out", r).wide("seen", seen).wide("used", used).num("calls", calls).num("reads", lw::g.reads);
+      out.put(e);
     }
   }
   // a struct field: the verifier's copy holds one of the values the field held
@@ -505,6 +635,10 @@ int main(int argc, char** argv)
     c09_tests();
   } else if (mode == "c06") {
     c06_tests();
+  } else if (mode == "c03") {
+    c03_tests();
+  } else if (mode == "c10") {
+    c10_tests();
   } else {
     return 2;
   }
